@@ -404,7 +404,7 @@ def run(cx):
                 r.stat.failed += 1
     cx.extra["eval_sem"] = {"expressions": len(exprs), "declined": n_decl}
 
-    rule_fold_sites(cx, "C03")
+    rule_flow_scripts(cx, "C03")
 
     # ---- C03-ENV-WRITE -----------------------------------------------------------------------
     # what the environment receives is decided by evaluation (C03-GLOBAL-INIT: swaps, re-assignments, augmented assignments,
@@ -579,6 +579,7 @@ def _list_remove(lst, v):
 _IR_BUILTINS = {
     "__redu_make_list": lambda *a: list(a), "__cast": lambda v: v, "__redu_len": len, "len": len, "str": str,
     "__redu_list_get": lambda l, i: l[i], "__redu_list_append": lambda l, v: l.append(v), "__redu_list_remove": _list_remove,
+    "__redu_list_assign": lambda d_, s_: d_.__setitem__(slice(None), list(s_)),
     "max": max, "min": min, "abs": abs,
 }
 
@@ -667,6 +668,186 @@ def eval_prologue(label, body, pot=False):
         got = dict(got, __reads__=ir_src.n)
         want = dict(want, __reads__=py_src.n)
     return "ok", want, got, note, prog
+
+
+class _Dev:
+    """recording stand-in for a Reduino device in the checker's own execution of a script"""
+    def __init__(self, kind, trace, reads=None):
+        self.kind, self.trace, self.reads = kind, trace, reads
+
+    def read(self):
+        return self.reads.read()
+
+    def write(self, value):
+        self.trace.append(("write", value if not isinstance(value, bool) else int(value)))
+
+    def flash_pattern(self, pattern, delay_ms=200):
+        self.trace.append(("flash", [int(x) for x in pattern], delay_ms))
+
+    def blink(self, duration_ms, times=1):
+        self.trace.append(("blink", duration_ms, times))
+
+    def glyph(self, slot, bitmap):
+        self.trace.append(("glyph", slot, [int(x) & 31 for x in bitmap]))
+
+    def set_brightness(self, value):
+        self.trace.append(("brightness", value))
+
+
+class _Sched:
+    def __init__(self, values):
+        self.values, self.n = list(values), 0
+
+    def read(self, *a):
+        v = self.values[min(self.n, len(self.values) - 1)]
+        self.n += 1
+        return v
+
+
+FLOW_HEAD = ("from Reduino.Utils import sleep\nfrom Reduino.Actuators import Led\nfrom Reduino.Sensors import Potentiometer\nfrom Reduino.Displays import LCD\nfrom Reduino.Communication import SerialMonitor\n"
+             "led = Led(13)\npot = Potentiometer('A0')\nlcd = LCD(i2c_addr=0x27)\nmon = SerialMonitor(9600)\n")
+FLOW_SCRIPTS = {
+    # label: (body after the device declarations, number of loop passes)
+    "len-of-string-after-branch": ("s = 'ab'\nif pot.read() > 5:\n    s = 'abcdef'\nn = len(s)\nwhile True:\n    mon.write(len(s))\n", 1),
+    "flash-pattern-after-branch": ("p = [1, 0]\nif pot.read() > 5:\n    p = [0, 1]\nled.flash_pattern(p)\nwhile True:\n    z0 = 0\n", 1),
+    "glyph-rows-after-branch": ("a = 1\nif pot.read() > 5:\n    a = 2\nlcd.glyph(0, [a, a, a, a, a, a, a, a])\nwhile True:\n    z0 = 0\n", 1),
+    "append-in-loop-then-len": ("xs = [1]\nwhile True:\n    xs.append(3)\n    n = len(xs)\n    mon.write(n)\n", 3),
+    "append-in-branch-then-len": ("xs = [1]\nif pot.read() > 5:\n    xs.append(2)\nn = len(xs)\nwhile True:\n    mon.write(n)\n", 1),
+    "append-of-branch-value-then-pattern": ("xs = [1, 0]\nv = 1\nif pot.read() > 5:\n    v = 0\nxs.append(v)\nled.flash_pattern(xs)\nwhile True:\n    z0 = 0\n", 1),
+    "augmented-string-in-loop-then-len": ("s = 'ab'\nwhile True:\n    s += 'c'\n    n = len(s)\n    mon.write(n)\n", 3),
+    "blink-argument-after-branch": ("d = 100\nif pot.read() > 5:\n    d = 500\nled.blink(d, 3)\nwhile True:\n    led.blink(d)\n", 1),
+    "brightness-argument-after-loop": ("b = 10\nfor i in range(3):\n    b = b + 20\nled.set_brightness(b)\nwhile True:\n    led.set_brightness(b + 1)\n", 1),
+    "flash-pattern-then-append": ("xs = [1, 0, 1]\nled.flash_pattern(xs)\nxs.append(0)\nled.flash_pattern(xs)\nwhile True:\n    z0 = 0\n", 1),
+    "sleep-argument-after-branch": ("pause = 100\nif pot.read() > 5:\n    pause = 700\nsleep(pause)\nwhile True:\n    sleep(pause)\n    pause = pause + 1\n", 2),
+    "serial-write-after-branch": ("k = 3\nif pot.read() > 5:\n    k = 4\nmon.write(k * 2)\nwhile True:\n    mon.write(k + 1)\n", 1),
+    "counter-in-loop": ("count = 0\nwhile True:\n    count = count + 1\n    mon.write(count * 2)\n", 3),
+    "len-of-string-after-while": ("s = 'a'\nn = 0\nwhile n < 2:\n    s = s + 'b'\n    n = n + 1\nwhile True:\n    mon.write(len(s))\n", 1),
+}
+
+
+def _ir_trace(prog, reads, passes):
+    """device commands the IR performs (values computed by the IR interpreter) for `passes` loop passes"""
+    trace = []
+    env = {"analogRead": reads.read, "A0": 0}
+
+    def run(nodes):
+        for n_ in nodes:
+            cn = type(n_).__name__
+            ev = lambda e_: _ir_eval(e_, env)
+            if cn == "SerialWrite":
+                v = ev(n_.value)
+                trace.append(("write", int(v) if isinstance(v, bool) else v))
+            elif cn == "LedFlashPattern":
+                trace.append(("flash", [int(x) for x in n_.pattern], ev(n_.delay_ms)))
+            elif cn == "LedBlink":
+                trace.append(("blink", ev(n_.duration_ms), ev(n_.times)))
+            elif cn == "LCDGlyph":
+                trace.append(("glyph", ev(n_.slot), [int(x) & 31 for x in n_.bitmap]))
+            elif cn == "LedSetBrightness":
+                trace.append(("brightness", ev(n_.value)))
+            elif cn == "Sleep":
+                trace.append(("sleep", ev(n_.ms)))
+            elif cn == "IfStatement":
+                for br in n_.branches:
+                    if ev(br.condition):
+                        run(br.body)
+                        break
+                else:
+                    run(n_.else_body or [])
+            elif cn == "WhileLoop":
+                guard = 0
+                while ev(n_.condition):
+                    run(n_.body)
+                    guard += 1
+                    if guard > 1000:
+                        raise AnalysisError("script interpretation did not terminate")
+            elif cn == "ForRangeLoop":
+                for i_ in range(int(ev(n_.count))):
+                    env[n_.var_name] = i_
+                    run(n_.body)
+            elif cn.endswith("Decl") and cn != "VarDecl":
+                continue
+            else:
+                _ir_exec([n_], env, [10000])
+    for d in list(prog.global_decls):
+        env[d.name] = _ir_eval(d.expr, dict(env))
+    run(list(prog.setup_body))
+    for _ in range(passes):
+        run(list(prog.loop_body))
+    return trace
+
+
+def rule_flow_scripts(cx, prefix):
+    """flow-insensitive folding decided on behaviour: scripts in which a value depends on a run-time branch, a loop or an
+    earlier mutation are run twice by the checker - CPython on recording device stubs, and the IR interpreter on the parsed
+    program - for both outcomes of the sensor reading; the device commands (serial values, blink/brightness arguments, flash
+    patterns, glyph rows) must be the same"""
+    from .. import pe as pe_
+    pm = mod(PARSER)
+    pf = pm.func("parse")
+    r = cx.rule(f"{prefix}-FLOW", "for scripts whose values depend on a run-time branch, a loop or an earlier append (len() of strings and lists, flash patterns, glyph rows, blink/brightness/serial arguments) and for both outcomes of the sensor reading: the device commands computed by the parsed IR equal the commands CPython's execution of the script issues - nothing is baked from a stale constant environment", floor=13)
+    for label, (body, passes) in FLOW_SCRIPTS.items():
+        src = FLOW_HEAD + body
+        try:
+            _it, out = pe_.parse_source(src)
+        except dl.Unsupported as e:
+            raise AnalysisError(f"parse() left the evaluable subset on flow script `{label}`: {e}")
+        if out.kind != "return":
+            r.check(out.value == "ValueError", f"flow[{label}]", (pm, pf), f"flow script `{label}`: parse() raises {out.value}", sample=f"{label}: refused")
+            continue
+        why = None
+        for reading in (0, 1000):
+            py_trace = []
+            sched = _Sched([reading])
+            genv = {"__builtins__": {"range": range, "len": len}, "sleep": (lambda ms, _t=py_trace: _t.append(("sleep", ms))), "led": _Dev("led", py_trace), "lcd": _Dev("lcd", py_trace), "mon": _Dev("mon", py_trace), "pot": _Dev("pot", py_trace, sched)}
+            code = re.sub(r"^while True:\s*$", f"for __pass in range({passes}):", body, flags=re.M)
+            exec(compile(code, f"<flow {label}>", "exec"), genv)     # the checker's own script on recording stubs
+            try:
+                ir_trace = _ir_trace(out.value, _Sched([reading]), passes)
+            except (NameError, SyntaxError, TypeError, ZeroDivisionError, IndexError, AttributeError, ValueError) as e:
+                why = f"sensor reading {reading}: the IR could not be interpreted ({type(e).__name__}: {e})"
+                break
+            if ir_trace != py_trace:
+                i_ = next((i for i, (a_, b_) in enumerate(zip(ir_trace, py_trace)) if a_ != b_), min(len(ir_trace), len(py_trace)))
+                why = f"sensor reading {reading}: command #{i_ + 1} is {ir_trace[i_] if i_ < len(ir_trace) else 'missing'} in the firmware and {py_trace[i_] if i_ < len(py_trace) else 'missing'} in Python"
+                break
+        r.check(why is None, f"flow[{label}]", (pm, pf), f"flow script `{label}`: {why}", sample=f"{label}: traces equal for both readings")
+    # every argument position of every device call: a variable that holds a constant and is re-assigned under a run-time branch
+    # must reach the IR as that variable
+    from .. import bindeval
+    from ..src import func_params
+    from . import c08
+    tasks, meta = [], []
+    for cls_ in sorted(c08.HOST):
+        if cls_.endswith("Decl"):
+            continue
+        hfile, hcls, hfn = c08.HOST[cls_]
+        hm = mod(hfile)
+        cx.consulted(hm)
+        params = func_params(hm.func(f"{hcls}.{hfn}" if hcls else hfn))
+        if hcls:
+            params = params[1:]
+        if not params or any(p_[1] in ("vararg", "kwarg") for p_ in params):
+            continue
+        posable = tuple(p_[0] for p_ in params if p_[1] in ("pos", "posonly") and p_[0] not in c08.HOST_ONLY)
+        kws = tuple(sorted(p_[0] for p_ in params if p_[1] == "kwonly" and p_[0] not in c08.HOST_ONLY))
+        order = tuple(p_[0] for p_ in params)
+        tasks.append((cls_, hcls, hfn, posable, len(posable), kws, order, frozenset({"__const_env__"})))
+        meta.append(cls_)
+    for cls_, (kind, val, desc, src) in zip(meta, bindeval.evaluate(tasks)):
+        call_txt = src.strip().split("\n")[-1]
+        if kind == "error":
+            raise AnalysisError(f"parse() left the evaluable subset on `{call_txt}`: {val}")
+        if kind != "node":
+            r.ok(f"{cls_}: {kind}")
+            continue
+        for pn, d_ in sorted(desc.items()):
+            if d_[0] != "var":
+                continue
+            holders = [f_ for f_, v_ in val.items() if isinstance(v_, str) and d_[1] in re.findall(r"\bz_\w+\b", v_)]
+            folded = [f_ for f_, v_ in val.items() if not isinstance(v_, bool) and isinstance(v_, (int, float)) and v_ in (21 + sorted(n_ for n_ in {x[1] for x in desc.values() if x[0] == "var"}).index(d_[1]), 121 + sorted(n_ for n_ in {x[1] for x in desc.values() if x[0] == "var"}).index(d_[1]))]
+            r.check(bool(holders) or not folded, f"flow-arg[{cls_}.{pn}]", (pm, pf), f"`{call_txt}` after `{d_[1]} = <constant>` re-assigned under a run-time branch: IR field(s) {folded} carry the number instead of the variable - the value was folded from the flow-insensitive constant environment", sample=f"{cls_}.{pn}: stays `{d_[1]}`")
+    return r
 
 
 def rule_global_init(cx, rid):
